@@ -45,6 +45,8 @@ pub struct Diag {
     pub code: Option<String>,
     pub message: String,
     pub rendered: String,
+    /// the primary span lies inside the expansion of this macro (e.g. `#[derive(derive_more::Add)]`)
+    pub from_macro: Option<String>,
 }
 
 #[derive(Clone, Debug, Default)]
@@ -250,6 +252,23 @@ fn cargo_build(ctx: &Ctx, spec: &ProgSpec, dir: &Path, bins: &[String]) -> Resul
                     code: m["code"]["code"].as_str().map(|s| s.to_string()),
                     message: msg,
                     rendered: m["rendered"].as_str().unwrap_or("").to_string(),
+                    from_macro: m["spans"].as_array().and_then(|sp| {
+                        sp.iter().filter(|s| s["is_primary"].as_bool() == Some(true)).chain(sp.iter()).find_map(|s| {
+                            let mut cur = s;
+                            loop {
+                                let e = &cur["expansion"];
+                                if e.is_null() {
+                                    return None;
+                                }
+                                if let Some(n) = e["macro_decl_name"].as_str() {
+                                    if n.starts_with("#[derive(") {
+                                        return Some(n.to_string());
+                                    }
+                                }
+                                cur = &e["span"];
+                            }
+                        })
+                    }),
                 };
                 let is_ours = v["target"]["src_path"].as_str().is_some_and(|p| p.contains("/gen/"));
                 if !is_ours {
